@@ -76,3 +76,83 @@ def toy_run(model, codes, s0, raise_mod, nsoil3=True):
                 pass
         model.Tsoil, model.nSoil = saved
     return recs, err, mean
+
+
+# ----------------------------------------------------------------------------- composition A (Morph)
+def toy_psy(T, w, P):
+    """Stub of `psychrometrics(canTemp, canHum, pres)` for the morph toy: the relative humidity and the dew
+    point that `simulate` stores in UCM.canRHum / UCM.Tdp when a record is taken are exactly representable
+    functions of the toy canyon temperature (a multiple of 1/8 K) and the integer pressure of the row."""
+    k = int(T * 8)
+    rh = ((k * 37 + int(P)) % 1001) / 8.0
+    tdp = T / 4.0 - 60.0 - (int(P) % 7) / 16.0
+    return 0., 0., rh, 0., tdp, 0.
+
+
+def toy_morph_simulate(model, s0, raise_mod, nsoil3=True):
+    """The REAL `model.simulate()` with the toy physics of lean/UwgVerif/Drv/Morph.lean.
+
+    Unlike `toy_run` nothing of the rural data is replaced: the toy step folds what the loop copied into
+    `forc` from the rural file (dry bulb, relative humidity, pressure, infrared, direct, diffuse, wind
+    direction, wind = max(wind, windMin)), the clock view and the deep temperature into an integer code kept in
+    `UCM.toyState`; the canyon temperature is 250 + (code % 1024)/8 K (so `canTemp - 273.15` is exact in
+    doubles); `UCM.canRHum` and `UCM.Tdp` are set by `simulate` itself through the stubbed `psychrometrics`;
+    `WeatherData[n]` is the loop's own `copy(forc)`, so `WeatherData[n].wind` is kept as the real one.
+    The ground-temperature table is replaced by Tsoil[i][m] = m + 1 (deep temperature = month).
+    Returns None or the error class ('sim-index', 'sim-fatal', 'timestep', or the exception name)."""
+    import uwg.uwg as U
+    st = model.simTime
+    saved_mod = {k: getattr(U, k) for k in ('SolarCalcs', 'urbflux', 'psychrometrics')}
+    saved = (model.Tsoil, model.nSoil)
+    inst = [(model.UCM, 'UCModel'), (model.UBL, 'ublmodel'), (model.rural, 'SurfFlux'), (model.RSM, 'vdm')]
+
+    class _Solar(object):
+        def __init__(self, UCM, BEM, simTime, RSM, forc, geoParam, rural):
+            self._r = (rural, UCM, BEM)
+
+        def solarcalcs(self):
+            return self._r
+
+    def _urbflux(UCM, UBL, BEM, forc, geoParam, simTime, RSM):
+        return UCM, UBL, BEM
+
+    def _noop(*a, **k):
+        return None
+
+    def _toy(BEM, T_ubl, forc, parameter):
+        s = model.UCM.toyState
+        v = (s * 31 + int(round(forc.temp * 100)) + 3 * int(forc.rHum) + 5 * int(forc.pres) +
+             7 * int(forc.infra) + 11 * int(forc.dir) + 13 * int(forc.dif) + 17 * int(forc.uDir) +
+             19 * int(round(forc.wind * 100)) + 23 * st.month + 29 * st.hourDay + 37 * model.dayType +
+             41 * int(round(forc.deepTemp * 100)) + int(st.secDay)) % 1000003
+        if raise_mod and v % raise_mod == 0:
+            raise Exception('toy fatal error')
+        model.UCM.toyState = v
+        model.UCM.canTemp = 250.0 + (v % 1024) / 8.0
+
+    err = None
+    try:
+        U.SolarCalcs, U.urbflux, U.psychrometrics = _Solar, _urbflux, toy_psy
+        model.UCM.UCModel = _toy
+        for o, name in inst[1:]:
+            setattr(o, name, _noop)
+        model.UCM.toyState = (s0 + int(round(model.forcIP.temp[0] * 100))) % 1000003
+        model.Tsoil = [[m + 1 for m in range(12)] for _ in range(3)]
+        model.nSoil = 3 if nsoil3 else 2
+        with contextlib.redirect_stdout(io.StringIO()):
+            try:
+                model.simulate()
+            except IndexError:
+                err = 'sim-index'
+            except Exception as e:  # noqa
+                err = 'sim-fatal' if 'toy fatal' in str(e) else 'timestep' if 'TIMESTEP' in str(e) else type(e).__name__
+    finally:
+        for k, v in saved_mod.items():
+            setattr(U, k, v)
+        for o, name in inst:
+            try:
+                delattr(o, name)
+            except AttributeError:
+                pass
+        model.Tsoil, model.nSoil = saved
+    return err
